@@ -67,12 +67,14 @@ inductive ReadEnd where
   | eof                              -- `nidx == 0`: end of data, EOD flags set, clean exit
   | fatalPackets (want got : Nat)    -- `esl_fatal`: the process ends
   | fatalMeta (want got : Nat)
+  | fatalIndex (want got : Nat)      -- end of data with fewer sequences than the index header announces (only in a tree whose loader checks)
   | fault
 deriving Repr, DecidableEq
 
 def ReadEnd.isFatal : ReadEnd → Bool
   | .fatalPackets _ _ => true
   | .fatalMeta _ _ => true
+  | .fatalIndex _ _ => true
   | _ => false
 
 /-- the loader's main loop: the chunks it loads, in order, and how it ends (fuel as for `loaderChunksB`) -/
@@ -111,6 +113,9 @@ theorem loaderRunX_B (maxseq : Nat) (maxpacket : Int) : ∀ (fuel : Nat) (st : B
     files), and how the loader ended -/
 def readDbX (maxseq : Nat) (maxpacket : Int) (o : Opened) : List (BChunk × Option (List SeqRec)) × ReadEnd :=
   let r := loaderRunX maxseq maxpacket (o.ifp.length / 16 + 2) (BState.init o)
-  (r.1.map fun c => (c, unpackB o.pack5 c), r.2)
+  -- at end of data a loader that checks (`Consts.loaderChecksNseq`, regenerated from the source) compares what it loaded with `dd->nseq`
+  let loaded := (r.1.map (·.n)).sum
+  let fin := if Consts.loaderChecksNseq && r.2 == .eof && loaded != o.nseq then ReadEnd.fatalIndex o.nseq loaded else r.2
+  (r.1.map fun c => (c, unpackB o.pack5 c), fin)
 
 end EaselModel.Dsqdata
